@@ -356,7 +356,7 @@ def rule_header(rep, idx):
         rep.add('R6', 'ctor:size-padded:start%%4=%d' % r, ok, pos(ctor.node) + ' hexasm::CodeGen::CodeGen',
                 'programSizeBytes = %s, trailing padding %r (expected P+%d, padding %d)' % (aff_str(sz.aff), got_pad, 1 + want_pad, want_pad))
     # emitBin: first write is programSizeBytes >> 2, 4 bytes, before emitProgramBin
-    f = idx.func('hexasm::CodeGen::emitBin')
+    f = idx.func_where('hexasm::CodeGen::emitBin', lambda g: any(callee_of(c)[1] == 'emitProgramBin' for c in cast.calls_in(g.body)))
     order = []
     for c in cast.calls_in(f.body):
         nm = callee_of(c)[1]
